@@ -169,12 +169,12 @@ def gen_cases(ck):
         for mode in ('bsd', 'sysv'):
             for k in (0, 1, 2, 3):
                 if k <= 2:
-                    kinds = all_kinds
+                    kinds = all_kinds if (thorough or k <= 1 or (pi <= 2 and mode == 'bsd') or pi == 1) else alternating
                 elif thorough:
                     kinds = all_kinds if mode == 'bsd' else mixed_some
                 else:
                     # quick: 3-signal schedules exhaustively (SIGINT) for the programs with <= 2 registrations under bsd
-                    if mode == 'sysv' or pi == 3:
+                    if mode == 'sysv' or pi != 1:
                         continue
                     kinds = int_only
                 cnt = 0
@@ -189,8 +189,10 @@ def gen_cases(ck):
         for out in OUT_STATES[1:]:
             for mode in (('bsd', 'sysv') if out in ('closed', 'pipe') else ('bsd',)):
                 for k in (0, 1, 2, 3):
+                    if k == 2 and not thorough and (out not in ('closed', 'part') or mode == 'sysv' or pi == 2):
+                        continue
                     if k <= 2:
-                        kinds = all_kinds if (k <= 1 or thorough or out == 'closed') else alternating
+                        kinds = all_kinds if (k <= 1 or thorough) else alternating
                     elif out in UNWRITABLE and mode == 'bsd' and (thorough or (out == 'closed' and pi == 1)):
                         kinds = int_only
                     else:
@@ -208,8 +210,10 @@ def gen_cases(ck):
         n = nsteps(prog)
         for mode, out in (('bsd', 'file'), ('sysv', 'file'), ('bsd', 'closed')):
             for k in (1, 2, 3):
-                kinds = all_kinds if k <= 2 else (all_kinds if thorough else alternating)
-                if k == 3 and not thorough and (mode, out) != ('bsd', 'file'):
+                kinds = all_kinds if (thorough or k <= 1) else alternating
+                if k == 3 and not thorough:
+                    continue
+                if k == 2 and not thorough and pi == 2 and (mode, out) != ('bsd', 'file'):
                     continue
                 cnt = 0
                 for sch in schedules(n, k, kinds):
@@ -255,7 +259,7 @@ def gen_cases(ck):
                     kinds = all_kinds if k <= 2 else (all_kinds if thorough else int_only)
                 else:
                     kinds = all_kinds if (k <= 1 or thorough) else alternating
-                if k == 3 and not thorough and (mode == 'sysv' or var != 'APP'):
+                if k == 3 and not thorough:
                     continue
                 cnt = 0
                 for sch in schedules(n, k, kinds):
@@ -266,7 +270,7 @@ def gen_cases(ck):
         n = nsteps(prog)
         for mode in ('bsd', 'sysv'):
             for k in (0, 1, 2):
-                for sch in schedules(n, k, all_kinds if k <= 1 else alternating):
+                for sch in schedules(n, k, all_kinds if k <= 1 else (alternating if thorough else int_only)):
                     cases.append(('enum-extra', '%s %s | %s' % (mode, prog, sch)))
     rng = random.Random(ck.seed * 7919 + (1 if thorough else 0))
     for _ in range(12000 if thorough else 1500):
@@ -893,7 +897,7 @@ def coverage_report(res, label):
     return '\n'.join(out), mt
 
 
-N_THEOREMS = 46
+N_THEOREMS = 49
 CURRENT_LAYOUT = 'fixed+dtor'     # = Layout.current in lean/MpVerif/C15/Model.lean (the order the main theorems are stated for)
 
 
